@@ -21,15 +21,27 @@ def parseEv (t : String) : Option Ev :=
   | 'x' => body.toNat?.map .fail
   | _ => none
 
+/-- annotated log: the allocator's events plus the caller's declarations o<hexaddr> (block of an object the caller still owns) and
+d<hexaddr> (the caller starts releasing it) -/
+def parseOEv (t : String) : Option OEv :=
+  let body := (t.drop 1).toString
+  match t.front with
+  | 'o' => (hexNat body).map .own
+  | 'd' => (hexNat body).map .disown
+  | _ => (parseEv t).map .ev
+
 def step (_ : Unit) (ws : List String) : Unit × String :=
   let toks := ws.filter (· ≠ "-")
-  match toks.mapM parseEv with
+  match toks.mapM parseOEv with
   | none => ((), "bad-log")
-  | some evs =>
-    let s := run {} evs
+  | some oevs =>
+    let os := orun {} oevs
+    let evs := baseLog oevs
+    let s := os.base
     let leakBytes := (s.live.map (sizeOf evs)).sum
-    if s.live.isEmpty && s.doubleFrees.isEmpty && s.foreignFrees.isEmpty then ((), s!"clean events={evs.length} fails={s.fails}")
-    else ((), s!"UNCLEAN leaks={s.live.length} leakBytes={leakBytes} double={s.doubleFrees.length} foreign={s.foreignFrees.length} fails={s.fails}")
+    if os.stolen.isEmpty && s.live.isEmpty && s.doubleFrees.isEmpty && s.foreignFrees.isEmpty then ((), s!"clean events={evs.length} fails={s.fails}")
+    else if os.stolen.isEmpty then ((), s!"UNCLEAN leaks={s.live.length} leakBytes={leakBytes} double={s.doubleFrees.length} foreign={s.foreignFrees.length} fails={s.fails}")
+    else ((), s!"UNCLEAN callerOwnedFreed={os.stolen.length} leaks={s.live.length} leakBytes={leakBytes} double={s.doubleFrees.length} foreign={s.foreignFrees.length} fails={s.fails}")
 
 def main : IO Unit := do
   lineLoop (← IO.getStdin) (← IO.getStdout) () step
